@@ -89,7 +89,32 @@ class Path:
         return self.ex.exc_class_name(self.value) if self.kind == "raise" else None
 
 
+class PathList(list):
+    """The explored paths of one run. Iterating restores, before each path is handed out, the content the unit's TRACKED record
+    containers (Unit.track) had when THAT path ended — paths are explored by re-running the setup, so a record shared by the
+    contract closures would otherwise describe the last path only."""
+
+    def __init__(self, paths, tracked):
+        super().__init__(paths)
+        self._tracked = tracked
+
+    def __iter__(self):
+        for p in list.__iter__(self):
+            for o, snap in zip(self._tracked, getattr(p.ex, "_tracked_snap", [])):
+                if isinstance(o, dict):
+                    o.clear()
+                    o.update(snap)
+                elif isinstance(o, list):
+                    o[:] = snap
+            yield p
+
+
 class Unit:
+    def track(self, obj):
+        """Register a dict / list that contract closures fill during a path (see PathList)."""
+        self.__dict__.setdefault("_tracked", []).append(obj)
+        return obj
+
     def __init__(self, prop: str, name: str, tier: str, root=None):
         self.prop, self.name, self.tier = prop, name, tier
         self.world = World(root)
@@ -122,6 +147,25 @@ class Unit:
         Returns list[Path] (kinds: return | raise). Unsupported => UNDECIDED entry, empty list."""
         cfg = cfg or Cfg()
         exs = []
+        # record containers (plain dict / list) that the setup and the contract closures of this run share are tracked per path
+        tracked = self.__dict__.setdefault("_tracked", [])
+
+        def closure_records(f, depth=0):
+            for c in (getattr(f, "__closure__", None) or ()):
+                try:
+                    o = c.cell_contents
+                except ValueError:
+                    continue
+                if type(o) in (dict, list) and all(o is not t for t in tracked):
+                    tracked.append(o)
+                elif callable(o) and depth < 2 and getattr(o, "__closure__", None):
+                    closure_records(o, depth + 1)
+        closure_records(setup)
+        for table in (cfg.contracts, cfg.lib_overrides, cfg.lib_prefix, getattr(cfg, "loops", {}), getattr(cfg, "abstract_blocks", {})):
+            for v in list(table.values()):
+                for f in (v, getattr(v, "apply", None), getattr(v, "with_apply", None), getattr(v, "inv", None), getattr(v, "havoc", None)):
+                    if callable(f):
+                        closure_records(f)
 
         def run(st):
             ex = Ex(self.world, st, cfg)
@@ -130,11 +174,14 @@ class Unit:
             args, kwargs = setup(ex)
             fr = Frame(None, fi.module)
             from .values import VFunc
+            import copy as _copy
             try:
                 v = ex.call_function(VFunc(fi), list(args), dict(kwargs), fr)
                 return "return", v
             except PyExc as pe:
                 return "raise", pe.val
+            finally:
+                ex._tracked_snap = [_copy.copy(o) for o in self.__dict__.get("_tracked", [])]
         try:
             res = explore(run, max_paths=max_paths)
         except Unsupported as e:
@@ -164,7 +211,7 @@ class Unit:
             f2 = self.world.used_functions.get(q)
             if f2 is not None and q not in self.functions:
                 self.functions[q] = {"sha": f2.sha, "file_sha": f2.module.sha, "paths": 0, "obligations": 0, "role": "inlined"}
-        return out
+        return PathList(out, list(self.__dict__.get("_tracked", [])))
 
     def _discharge_internal(self, fi, ex):
         for ob in ex.st.obligations:
